@@ -170,8 +170,8 @@ def _form(n, atoms):
             if isinstance(r, Lin) and r.is_const():
                 return l.scale(r.const)
             # product of two non-constants: opaque atom with sorted operands
-            ops = sorted([src(n.left), src(n.right)])
-            return atom('(%s * %s)' % tuple(atoms.get(o, o) for o in ops))
+            ops = sorted(_sub(o, atoms) for o in (n.left, n.right))
+            return atom('(%s * %s)' % tuple(ops))
         if isinstance(n.op, ast.Div):
             return atom('(%s / %s)' % (_sub(n.left, atoms), _sub(n.right, atoms)))
         raise NotLinear('operator %s' % type(n.op).__name__)
